@@ -308,6 +308,10 @@ func bindResults(env *Env, sig *types.Signature, result SVal) {
 func (vc *VC) builtin(f *ssa.Builtin, c *ssa.CallCommon, rt types.Type, pos token.Pos) SVal {
 	R := vc.R[vc.cur]
 	switch f.Name() {
+	case "delete":
+		MT := c.Args[0].Type().Underlying().(*types.Map)
+		vc.mapDelete(vc.val(c.Args[0]), vc.val(c.Args[1]), MT)
+		return SVal{}
 	case "len":
 		v := vc.val(c.Args[0])
 		switch v.K {
